@@ -519,3 +519,181 @@ class CrossScheduleOracle(Observer):
                 ):
                     return
         w.probe("c01.cross_schedule_ok")
+
+
+# ======================================================================================
+# C06 - a view's gradient is the view of its base's gradient
+# ======================================================================================
+class ViewGradOracle(Observer):
+    """window: from a successful backward() until the next statement that uses tensors.  For every
+    caller-held non-constant view v that was a member of its family before the call:
+    base.grad is not None => v.grad is not None, equals the view chain applied to base.grad
+    (bit-exact), shares memory with it; re-reading agrees; over all pairs of handles
+    shares(grad_i, grad_j) => shares(data_i, data_j)."""
+
+    PASSIVE = ("readgrad", "drop", "gc", "sched", "sched_end", "grab")
+
+    def attach(self, w):
+        self.window = None
+
+    def after(self, w, ev, out):
+        k = ev["k"]
+        if k == "backward":
+            rec = w.last_backward
+            if out.status == "ok" and rec and rec.get("tracking") and not rec.get("tainted") and rec.get("expected") is not None:
+                self.window = {"members": {h: ids for h, ids in rec["pre_member_ids"].items()}, "n": 0}
+                self.check(w, ev)
+            else:
+                self.window = None
+            return
+        if self.window is None:
+            return
+        if k in self.PASSIVE:
+            if k == "readgrad":
+                self.check(w, ev, only=ev.get("hs"))
+            return
+        self.window = None
+
+    def check(self, w, ev, only=None):
+        mem = self.window["members"]
+        hs = [h for h in (only if only is not None else sorted(mem)) if h in mem and h in w.T]
+        for h in hs:
+            v = w.T[h]
+            if w.info[h].const:
+                continue
+            b = v.base
+            if b is None:
+                continue  # the link was dropped (a later use); nothing to compare with
+            bg = b.grad
+            if bg is None:
+                continue
+            g1 = v.grad
+            g2 = v.grad
+            if g1 is None:
+                if w.violation("C06", "C06.view_grad_missing", f"step {w.nstep}: view handle {h}: base.grad is available but view.grad is None", tag="C06.view_grad/missing"):
+                    return
+                continue
+            if g1 is not g2 and not (np.array_equal(g1, g2) and np.shares_memory(g1, g2)):
+                if w.violation("C06", "C06.view_grad_unstable", f"step {w.nstep}: view handle {h}: two reads of .grad disagree", tag="C06.view_grad/unstable"):
+                    return
+            ids = mem[h]
+            expect = np.asarray(bg).reshape(-1)[ids] if ids.size else np.zeros(ids.shape)
+            if g1.shape != expect.shape or not np.array_equal(g1, expect):
+                if w.violation(
+                    "C06",
+                    "C06.view_grad_value",
+                    f"step {w.nstep}: view handle {h}: grad {np.asarray(g1).tolist()!r:.120} is not the view of base.grad {np.asarray(expect).tolist()!r:.120}",
+                    tag="C06.view_grad/value",
+                ):
+                    return
+                continue
+            if g1.size and not np.shares_memory(g1, bg):
+                if w.violation("C06", "C06.view_grad_not_shared", f"step {w.nstep}: view handle {h}: grad equals the view of base.grad but does not share memory with it", tag="C06.view_grad/not_shared"):
+                    return
+                continue
+            w.probe("c06.view_grad_ok")
+            if not bg.flags.c_contiguous:
+                w.probe("c06.base_grad_noncontiguous")
+            del g1, g2, bg, b
+        # grads of tensors that do not share memory never share memory
+        items = [(h, t) for h, t in w.T.items()]
+        for x in range(len(items)):
+            hx, tx = items[x]
+            gx = tx.grad
+            if gx is None or gx.size == 0:
+                continue
+            for y in range(x + 1, len(items)):
+                hy, ty = items[y]
+                gy = ty.grad
+                if gy is None or gy.size == 0:
+                    continue
+                if np.shares_memory(gx, gy) and not np.shares_memory(tx.data, ty.data):
+                    if w.violation("C06", "C06.grad_alias", f"step {w.nstep}: handles {hx},{hy} do not share data memory but their gradients share memory", tag="C06.grad_alias"):
+                        return
+
+
+# ======================================================================================
+# C09 - backprop through a partially cleared graph
+# ======================================================================================
+class PartialClearOracle(Observer):
+    """backward() on a terminal whose recorded graph was partially cleared must raise
+    InvalidBackprop, or write exactly the gradients of the forward computation as recorded."""
+
+    def attach(self, w):
+        self.mutated_since_clear = set()
+        self.cleared_once = False
+        self.reused = set()  # handles used as operands after some clear
+
+    def after(self, w, ev, out):
+        k = ev["k"]
+        if k in ("backward", "clear") and out.status == "ok":
+            self.cleared_once = True
+        if self.cleared_once and out.status == "ok" and k in ("op", "inplace", "terminal"):
+            for r in ev.get("args", []):
+                if "t" in r:
+                    self.reused.add(r["t"])
+            for hh, _ in ev.get("terms", []):
+                self.reused.add(hh)
+        if k == "inplace" and out.status == "ok" and ev["tgt"] in w.info:
+            self.mutated_since_clear.update(w.info[ev["tgt"]].fam.members)
+        if k != "backward":
+            return
+        rec = w.last_backward
+        if rec is None or rec.get("h") != ev["tgt"] or not rec.get("tracking"):
+            return
+        if not rec.get("tainted"):
+            w.count("c09.untainted_backward")
+            return
+        w.probe("c09.tainted_backward")
+        if out.status == "fail" and out.exc == "InvalidBackprop":
+            w.probe("c09.invalid_backprop")
+            return
+        if out.status in ("unexp", "fail"):
+            w.violation(
+                "C09",
+                "C09.other_exception",
+                f"step {w.nstep}: backward() on a partially cleared graph raised {out.exc} (neither InvalidBackprop nor success): {out.msg[:120]}",
+                tag=f"C09.other_exception/{out.exc}",
+            )
+            return
+        if out.status != "ok":
+            return
+        exp = rec.get("expected")
+        if exp is None or w.grad_poisoned:
+            return
+        w.probe("c09.tainted_backward_succeeded")
+        values_ok = not (rec.get("nondiff") or rec.get("opaque"))
+        for h, t in w.T.items():
+            if h in rec["pre_ids"] or h not in exp or t.base is not None:
+                continue  # views (also ones whose family MyGrad has half-forgotten) read their base's gradient
+            g = t.grad
+            pre = rec["pre_grads"].get(h)
+            if g is None:
+                continue
+            ga = np.asarray(g)
+            written = pre is None or pre[1] != ga.tobytes() or pre[3] != ga.shape or (pre[0] is not None and pre[0]() is not g)
+            if not written:
+                continue
+            e = exp[h]
+            mut = "mutated_after_clear" if self.mutated_since_clear else "no_inplace_update"
+            if self.mutated_since_clear:
+                mut += "/reused" if (self.mutated_since_clear & self.reused) else "/not_reused"
+            if e[0] != "val":
+                if w.violation(
+                    "C09",
+                    "C09.grad_outside_recorded_graph",
+                    f"step {w.nstep}: backward() through a partially cleared graph wrote grad {ga.tolist()!r:.100} to handle {h}, whose current version is not part of the graph as recorded",
+                    tag=f"C09.stale_values/{mut}",
+                ):
+                    return
+                continue
+            if values_ok and (ga.shape != e[1].shape or not close(ga, e[1], w.exact, rec.get("scale", 1.0), dtype=w.tol_dtype)):
+                if w.violation(
+                    "C09",
+                    "C09.wrong_grad",
+                    f"step {w.nstep}: backward() through a partially cleared graph wrote grad {ga.tolist()!r:.100} to handle {h}; the graph as recorded gives {np.asarray(e[1]).tolist()!r:.100}",
+                    tag=f"C09.stale_values/{mut}/wrong_value",
+                ):
+                    return
+            else:
+                w.probe("c09.grad_matches_recorded")
